@@ -147,6 +147,7 @@ fn main() {
         .iter()
         .find_map(|e| e.strip_prefix("inputs=").map(|v| v.parse().unwrap()))
         .unwrap_or(30);
+    let bang_always = o.extra.iter().any(|e| e == "bang=always");
     let mut r = Rng::new(o.seed);
     let mut h = Hist::default();
     let gen_dir = o.out.join("gen");
@@ -163,7 +164,7 @@ fn main() {
     while ng < o.n && attempts < o.n * 6 {
         attempts += 1;
         let allow_bang = r.chance(1, 4);
-        let cfg = gen_cfg(&mut r, allow_bang);
+        let cfg = if bang_always { gen_cfg_recovery(&mut r) } else { gen_cfg(&mut r, allow_bang) };
         if cfg.nterm > 8 {
             continue;
         }
@@ -272,6 +273,16 @@ fn main() {
                 }
             };
             kinds.retain(|k| *k != Some(usize::MAX));
+            if r.chance(1, 6) && !kinds.is_empty() {
+                let keep = r.below(kinds.len());
+                kinds.truncate(keep);
+            }
+            if r.chance(1, 8) && !used.is_empty() {
+                let j = r.below(kinds.len() + 1);
+                for _ in 0..2 + r.below(3) {
+                    kinds.insert(j, Some(*r.pick(&used)));
+                }
+            }
             for _ in 0..r.below(3) {
                 match r.below(4) {
                     0 if !kinds.is_empty() => {
